@@ -278,6 +278,14 @@ class NpShimAF(NpShim):
             return NpShim.allclose(self, *a, **k)
         return _ModelProxy(np.allclose, model)
 
+    object_empty = False  # opt-in (A4 extension): np.empty(shape) inside unyt._array_functions allocates an object buffer, so that
+                          # `_sanitize_range` can store converted (symbolic) range limits where production stores float64 numbers
+
+    def empty(self, shape, dtype=float, **k):
+        if NpShimAF.object_empty and np.dtype(dtype).kind == "f":
+            return np.empty(shape, dtype=object)
+        return np.empty(shape, dtype=dtype, **k)
+
     def __getattr__(self, k):
         v = getattr(np, k)
         if hasattr(v, "_implementation"):
